@@ -8,7 +8,7 @@ import tempfile
 
 from hypothesis import strategies as st
 
-SYMBOLS = ['A', 'AB', 'A_1', 'Z9', 'SPY', 'AGG', 'B', 'C', 'GLD', 'Q_1']
+SYMBOLS = ['A', 'AB', 'A_1', 'Z9', 'SPY', 'AGG', 'B', 'C', 'GLD', 'Q_1', 'BF.B', 'BF']      # incl. a ticker with a dot
 _TMP = '/dev/shm' if os.path.isdir('/dev/shm') and os.access('/dev/shm', os.W_OK) else None
 
 
@@ -66,7 +66,9 @@ def write_market(symbols, path):
             for y, m, d, o, c, a in rows:
                 hi = max(x for x in (o, c, 1e-9) if x is not None)
                 lo = min(x for x in (o, c, 1e9) if x is not None)
-                f.write('%04d-%02d-%02d,%s,%s,%s,%s,%s,1000\n' % (y, m, d, fmt(o), fmt(hi), fmt(lo), fmt(c), fmt(a)))
+                # the Volume column is not part of any price: some days report 0, some leave it empty
+                vol = '0' if d % 7 == 0 else ('' if d % 11 == 0 else '1000')
+                f.write('%04d-%02d-%02d,%s,%s,%s,%s,%s,%s\n' % (y, m, d, fmt(o), fmt(hi), fmt(lo), fmt(c), fmt(a), vol))
 
 
 @contextlib.contextmanager
